@@ -135,6 +135,11 @@ void sim_apply_plan(const Plan *p)
 		n->jumps[0].delta_s = p->jump_delta_s;
 		n->njumps = 1;
 	}
+	for (int i = 0; i < SIM_MAX_NODES; i++)
+		if (p->afail_at >= 0 && (p->afail_node == i || p->afail_node == -2)) {
+			g_sim.nodes[i].afail_at = p->afail_at;
+			g_sim.nodes[i].afail_rest = (int)p->afail_rest;
+		}
 	if (p->efail_node >= 0 && p->efail_node < SIM_MAX_NODES) {
 		Node *n = &g_sim.nodes[p->efail_node];
 		n->efail_at = p->efail_at;
